@@ -521,12 +521,15 @@ var c05StreamOps = []string{
 	"close(user_input)", "close(user_output)", "open('c05in.txt', read, S), set_input(S)", "open('c05out.txt', write, S), set_output(S)",
 	"current_input(S), close(S)", "current_output(S), close(S)", "set_input(user_input)", "set_output(user_output)",
 	"open('c05in.txt', read, _, [alias(al)])", "close(al)", "set_input(al)", "open('c05out.txt', append, _, [alias(al)])", "set_output(al)", "close(user_error)",
+	// a stream with more than one alias; an open/4 that fails after an alias option
+	"open('c05in.txt', read, _, [alias(al), alias(al2)])", "close(al2)", "open('c05in.txt', read, _, [alias(al3), bogus(1)])",
 }
 
 var c05StreamProbes = []string{
 	"get_char(_)", "peek_char(_)", "read(_)", "at_end_of_stream", "write(x)", "nl", "put_char(a)", "flush_output",
 	"current_input(S), stream_property(S, P)", "current_output(S), stream_property(S, P)", "stream_property(S, alias(A))", "current_input(S), get_char(S, _)",
 	"current_output(S), write(S, x)", "get_char(user_input, _)", "write(user_output, x)", "write(user_error, x)", "findall(S, stream_property(S, _), L)",
+	"get_char(al, _)", "get_char(al2, _)", "peek_char(al3, _)", "stream_property(S, alias(al)), get_char(S, _)", "stream_property(S, file_name(_)), stream_property(S, position(_)), peek_char(S, _)",
 }
 
 func c05StreamHistories(w *h.W, emit func(c *c05Case, kind, detail string, size int)) {
